@@ -666,9 +666,32 @@ func r158BodyTee(c *an.Ctx, rule string) {
 				if !ok || se.Sel.Name != "Body" {
 					return true
 				}
-				// NopCloser(bytes.NewBuffer(b)) / NopCloser(bytes.NewReader(b))
+				// NopCloser(bytes.NewBuffer(b)) / NopCloser(bytes.NewReader(b)), directly or through a helper that returns it
 				outer, ok := an.Unparen(as.Rhs[0]).(*ast.CallExpr)
-				if !ok || len(outer.Args) != 1 || !strings.HasSuffix(an.CalleeName(info, outer), ".NopCloser") {
+				if !ok || len(outer.Args) != 1 {
+					return true
+				}
+				if h := c.FuncOfObj(an.Callee(info, outer)); h != nil && c.IsNewFunc(h) && len(h.Decl.Body.List) == 1 {
+					// func bodyReader(b []byte) io.ReadCloser { return io.NopCloser(bytes.NewBuffer(b)) }
+					if ret, ok := h.Decl.Body.List[0].(*ast.ReturnStmt); ok && len(ret.Results) == 1 {
+						if o2, ok := an.Unparen(ret.Results[0]).(*ast.CallExpr); ok && len(o2.Args) == 1 && strings.HasSuffix(an.CalleeName(h.Pkg.TypesInfo, o2), ".NopCloser") {
+							if in2, ok := an.Unparen(o2.Args[0]).(*ast.CallExpr); ok && len(in2.Args) == 1 {
+								switch an.CalleeName(h.Pkg.TypesInfo, in2) {
+								case "bytes.NewBuffer", "bytes.NewReader":
+									if paramIndex(h, in2.Args[0]) == 0 {
+										if id, ok := an.Unparen(outer.Args[0]).(*ast.Ident); ok {
+											if o := an.ObjOf(info, id); o != nil {
+												reinstalled[o] = true
+											}
+										}
+									}
+								}
+							}
+						}
+					}
+					return true
+				}
+				if !strings.HasSuffix(an.CalleeName(info, outer), ".NopCloser") {
 					return true
 				}
 				inner, ok := an.Unparen(outer.Args[0]).(*ast.CallExpr)
